@@ -47,13 +47,13 @@ func (s Sort) String() string {
 
 // Term is an immutable node of a term DAG.
 type Term struct {
-	Op   string // "const", "var", "app:<name>" (uninterpreted), or an SMT operator
-	Args []*Term
-	S    Sort
-	C    uint64 // constant payload (bool 0/1, bit-vector bits, float bits)
-	Name string // variable / function name
-	ID   int64
-	key  [2]uint64
+	Op    string // "const", "var", "app:<name>" (uninterpreted), or an SMT operator
+	Args  []*Term
+	S     Sort
+	C     uint64 // constant payload (bool 0/1, bit-vector bits, float bits)
+	Name  string // variable / function name
+	ID    int64
+	key   [2]uint64
 	keyed bool
 }
 
@@ -65,7 +65,7 @@ func (t *Term) Key() [2]uint64 {
 	h1, h2 := uint64(14695981039346656037), uint64(0x9e3779b97f4a7c15)
 	mix := func(v uint64) {
 		h1 = (h1 ^ v) * 1099511628211
-		h2 = (h2 + v*0xff51afd7ed558ccd) ^ (h2 >> 29) * 0xc4ceb9fe1a85ec53
+		h2 = (h2 + v*0xff51afd7ed558ccd) ^ (h2>>29)*0xc4ceb9fe1a85ec53
 	}
 	for i := 0; i < len(t.Op); i++ {
 		mix(uint64(t.Op[i]))
@@ -540,10 +540,18 @@ func fparith(op string, a, b *Term, f func(x, y float64) float64) *Term {
 	return mk(op, a.S, a, b)
 }
 
-func FPAdd(a, b *Term) *Term { return fparith("fp.add", a, b, func(x, y float64) float64 { return x + y }) }
-func FPSub(a, b *Term) *Term { return fparith("fp.sub", a, b, func(x, y float64) float64 { return x - y }) }
-func FPMul(a, b *Term) *Term { return fparith("fp.mul", a, b, func(x, y float64) float64 { return x * y }) }
-func FPDiv(a, b *Term) *Term { return fparith("fp.div", a, b, func(x, y float64) float64 { return x / y }) }
+func FPAdd(a, b *Term) *Term {
+	return fparith("fp.add", a, b, func(x, y float64) float64 { return x + y })
+}
+func FPSub(a, b *Term) *Term {
+	return fparith("fp.sub", a, b, func(x, y float64) float64 { return x - y })
+}
+func FPMul(a, b *Term) *Term {
+	return fparith("fp.mul", a, b, func(x, y float64) float64 { return x * y })
+}
+func FPDiv(a, b *Term) *Term {
+	return fparith("fp.div", a, b, func(x, y float64) float64 { return x / y })
+}
 
 // FPConv converts between float widths (round to nearest even).
 func FPConv(a *Term, w int) *Term {
